@@ -286,7 +286,13 @@ def line_conformance(tier: str, rep: Report) -> dict:
     import re
     known = set(re.findall(r'pc\[self\] = "(\w+)"', (SPEC / "BreakerThreads.tla").read_text()))
     for t in traces:      # continuation lines of multi-line statements have no label of their own
-        t["lines"] = [e for e in t["lines"] if e[1] in known]
+        kept, last = [], {}
+        for e in t["lines"]:
+            if e[1] not in known or last.get(e[0]) == e[1]:   # ... and end on their first line again
+                continue
+            kept.append(e)
+            last[e[0]] = e[1]
+        t["lines"] = kept
     tf = WORK / f"trace-lines-{os.getpid()}.json"
     cf = WORK / f"ThreadTrace-{os.getpid()}.cfg"
     tf.write_text(_json.dumps([{"sc": t["sc"], "lines": t["lines"]} for t in traces]))
